@@ -48,7 +48,8 @@ TIERS = {
 FAULT_KINDS = ["illtyped_construct", "illtyped_subst", "unsupported", "undefined_symbol", "bad_smtlib", "bad_hr",
                "unsupported_command", "redefine_symbol", "stream_eio", "solver_convert", "solver_unknown",
                "script_strict", "parse_declares", "bad_interpretation", "arith_error_subst", "sl_error", "bad_size_measure",
-               "nonincr_is_sat", "readd_solver", "model_incomplete", "bad_preference_list", "solver_reset_refused", "script_evaluate", "solver_pop_too_many", "printer_unsupported", "bad_cmdgen"]
+               "nonincr_is_sat", "readd_solver", "model_incomplete", "bad_preference_list", "solver_reset_refused", "script_evaluate", "solver_pop_too_many", "printer_unsupported", "bad_cmdgen",
+               "bad_assignment_list"]
 SERVICES = ["simplify", "substitute", "free_vars", "atoms", "theory", "types", "size", "serialize", "to_smtlib",
             "nnf", "cnf", "aig", "prenex", "is_qf", "logic", "model_value"]
 
@@ -259,6 +260,9 @@ def gen_plan(tape, cfg):
                 # a command whose BODY fails after names were bound for it (formal parameter, let
                 # variable, bound variable), given to a parser that is used command by command
                 o["which"] = tape.choice(sorted(BAD_CMDS), "badcmd.which")
+            elif kind == "bad_assignment_list":
+                # a malformed get-value / get-model answer given to the command-by-command parser
+                o["text"] = tape.choice(BAD_ASSIGNMENTS, "badassign.text")
             elif kind == "script_evaluate":
                 o["f"] = bp.gen_term(tape, bp.BOOL, 2, sctx)
                 o["prio"] = tape.choice(["single-obj", "lex", "box"], "seval.prio")
@@ -283,6 +287,10 @@ def gen_plan(tape, cfg):
             if o["kind"] == "bad_cmdgen":
                 # later the same name is used by a command that does not bind it
                 pending_retry.insert(0, {"op": "cmdgen", "text": "(assert (= %s 3))" % BAD_CMDS[o["which"]][1]})
+            if o["kind"] == "bad_assignment_list":
+                # later a name the environment knows but this parser was never told about
+                pending_retry.insert(0, {"op": "cmdgen", "text": tape.choice(["(assert (= y 1))", "(assert (> (f 1) 0))", "(assert q)"],
+                                                                              "badassign.then")})
             if o["kind"] == "sl_error" and o["cmd"] == "pop":
                 # what a query left behind (had its level not been popped) would contradict this one
                 pending_retry.insert(0, {"op": "sl", "sop": "is_sat", "f": ["not", o["f"]]})
@@ -848,7 +856,15 @@ def _declared_by_wellformed_command(msg, texts):
 PRINTERS = ["smt_dag", "smt_tree", "hr"]
 BAD_CMDS = {"define-fun": ("(define-fun cf ((cv Int)) Int (+ cv p))", "cv"),
             "let": ("(assert (let ((lw (+ x 1))) (and lw p)))", "lw"),
-            "forall": ("(assert (forall ((qv Int)) (and qv p)))", "qv")}
+            "forall": ("(assert (forall ((qv Int)) (and qv p)))", "qv"),
+            # a wrong number of body terms, a binder that is malformed after its name and sort (round 8)
+            "let2": ("(assert (let ((lw2 (+ x 1))) p p))", "lw2"),
+            "let0": ("(assert (let ((lw0 (+ x 1)))))", "lw0"),
+            "forall2": ("(assert (forall ((qv2 Int)) p p))", "qv2"),
+            "exists0": ("(assert (exists ((qv0 Int))))", "qv0"),
+            "binder": ("(assert (forall ((qy Int) (qb Int 7)) p))", "qb"),
+            "let_binder": ("(assert (let ((lq 1) (lb 2 3)) p))", "lb")}
+BAD_ASSIGNMENTS = ["((x 1) oops)", "((x 1) (y", "((x 1) (y 2 3))", "((x 1) ((f 1) (+ p 1)))", "(x 1)"]
 
 
 def _cmdparser(side):
@@ -1081,6 +1097,8 @@ def _fault_fn(o, term, symbols, user, side, tape):
         return (lambda: _print_long(side, o["printer"], bp.build(o["t"], env))), None
     if fk == "bad_cmdgen":
         return (lambda: list(_cmdparser(side).get_command_generator(StringIO(BAD_CMDS[o["which"]][0])))), None
+    if fk == "bad_assignment_list":
+        return (lambda: _cmdparser(side).get_assignment_list(StringIO(o["text"]))), None
     if fk == "solver_pop_too_many":
         # more levels than there are: the back end refuses, nothing may have been popped
         return (lambda: side.solver.pop(side.sdepth + 1 + (1 if side.solver.pending_pop else 0))), None
